@@ -1,12 +1,226 @@
 import GrafeoModel.Driver.Proto
+import GrafeoModel.Model.Ser
 
-/-! Stream `ser` (stub: filled in by the owner of this stream). Stateless lines; if you need
-per-case state, keep it inside one op line. -/
+/-! Stream `ser` (C16, serialisation half). Stateless lines; see harness/src/ser.rs for the ops.
+
+Value tokens: `N`, `B0|B1`, `I<dec>`, `F<16 hex>`, `S<hex utf8>`, `Y<hex>`, `T<dec>`, `V<8 hex per f32>`,
+`L(<tok>,…)`, `M(<hex key>:<tok>,…)`. -/
 namespace Grafeo.DriverSer
 open Grafeo.Proto
+open Grafeo.Ser
+
+/-! ### tokens -/
+
+def hexU8s (bs : List UInt8) : String := hexBytes (bs.map UInt8.toNat)
+/-- `-` for the empty byte string where a whole output field is a hex string -/
+def hexField (bs : List UInt8) : String := if bs.isEmpty then "-" else hexU8s bs
+
+def hexFixed (digits : Nat) (n : Nat) : String :=
+  String.ofList ((List.range digits).reverse.map fun i => hexDigit (n / 16 ^ i % 16))
+
+def i64Str (x : UInt64) : String :=
+  if x.toNat < 9223372036854775808 then toString x.toNat else "-" ++ toString (18446744073709551616 - x.toNat)
+
+mutual
+def tok : SVal → String
+  | .null => "N"
+  | .bool b => if b then "B1" else "B0"
+  | .int x => "I" ++ i64Str x
+  | .float x => "F" ++ hexFixed 16 x.toNat
+  | .str s => "S" ++ hexU8s s
+  | .bytes b => "Y" ++ hexU8s b
+  | .ts t => "T" ++ i64Str t
+  | .vec fs => "V" ++ String.join (fs.map fun f => hexFixed 8 f.toNat)
+  | .list xs => "L(" ++ joinWith "," (tokList xs) ++ ")"
+  | .map es => "M(" ++ joinWith "," (tokEntries es) ++ ")"
+def tokList : List SVal → List String
+  | [] => []
+  | x :: xs => tok x :: tokList xs
+def tokEntries : List (List UInt8 × SVal) → List String
+  | [] => []
+  | (k, v) :: es => (hexU8s k ++ ":" ++ tok v) :: tokEntries es
+end
+
+def isStop (c : Char) : Bool := c == ',' || c == ')' || c == ':'
+
+def spanTok (cs : List Char) : List Char × List Char := cs.span (fun c => !isStop c)
+
+def parseBytes (cs : List Char) : Option (List UInt8) :=
+  (parseHexAux cs).map fun ns => ns.map UInt8.ofNat
+
+def parseI64 (cs : List Char) : Option UInt64 :=
+  match (String.ofList cs).toInt? with
+  | some i =>
+    if i ≥ 0 then some (UInt64.ofNat i.toNat) else some (UInt64.ofNat (18446744073709551616 - (-i).toNat))
+  | none => none
+
+def hexNat (cs : List Char) : Option Nat :=
+  cs.foldl (fun acc c => match acc, hexVal c with
+    | some a, some d => some (16 * a + d)
+    | _, _ => none) (some 0)
+
+def chunks8 : Nat → List Char → Option (List UInt32)
+  | _, [] => some []
+  | 0, _ => none
+  | f + 1, cs =>
+    if cs.length < 8 then none
+    else match hexNat (cs.take 8), chunks8 f (cs.drop 8) with
+      | some n, some r => some (UInt32.ofNat n :: r)
+      | _, _ => none
+
+mutual
+def parseVal : Nat → List Char → Option (SVal × List Char)
+  | 0, _ => none
+  | f + 1, cs =>
+    match cs with
+    | [] => none
+    | 'N' :: r => some (.null, r)
+    | 'B' :: '0' :: r => some (.bool false, r)
+    | 'B' :: '1' :: r => some (.bool true, r)
+    | 'I' :: r => let (a, r') := spanTok r; (parseI64 a).map fun x => (.int x, r')
+    | 'T' :: r => let (a, r') := spanTok r; (parseI64 a).map fun x => (.ts x, r')
+    | 'F' :: r => let (a, r') := spanTok r
+                  if a.length = 16 then (hexNat a).map fun n => (.float (UInt64.ofNat n), r') else none
+    | 'S' :: r => let (a, r') := spanTok r; (parseBytes a).map fun b => (.str b, r')
+    | 'Y' :: r => let (a, r') := spanTok r; (parseBytes a).map fun b => (.bytes b, r')
+    | 'V' :: r => let (a, r') := spanTok r; (chunks8 (a.length + 1) a).map fun fs => (.vec fs, r')
+    | 'L' :: '(' :: ')' :: r => some (.list [], r)
+    | 'L' :: '(' :: r => (parseItems f r).map fun p => (.list p.1, p.2)
+    | 'M' :: '(' :: ')' :: r => some (.map [], r)
+    | 'M' :: '(' :: r => (parseEntries f r).map fun p => (.map (mkMap p.1), p.2)
+    | _ => none
+def parseItems : Nat → List Char → Option (List SVal × List Char)
+  | 0, _ => none
+  | f + 1, cs =>
+    match parseVal f cs with
+    | some (v, ',' :: r) => (parseItems f r).map fun p => (v :: p.1, p.2)
+    | some (v, ')' :: r) => some ([v], r)
+    | _ => none
+def parseEntries : Nat → List Char → Option (List (List UInt8 × SVal) × List Char)
+  | 0, _ => none
+  | f + 1, cs =>
+    let (a, r0) := spanTok cs
+    match parseBytes a, r0 with
+    | some k, ':' :: r1 =>
+      match parseVal f r1 with
+      | some (v, ',' :: r) => (parseEntries f r).map fun p => ((k, v) :: p.1, p.2)
+      | some (v, ')' :: r) => some ([(k, v)], r)
+      | _ => none
+    | _, _ => none
+end
+
+def untok (s : String) : Option SVal :=
+  let cs := s.toList
+  match parseVal (cs.length + 1) cs with
+  | some (v, []) => some v
+  | _ => none
+
+/-! ### outcomes -/
+
+def errStr : Err → String
+  | .eof => "err:eof"
+  | .utf8 => "err:utf8"
+  | .tag t => "err:tag" ++ toString t.toNat
+  | .cols => "err:cols"
+  | .inttype => "err:inttype"
+  | .variant => "err:other"
+  | .badbool => "err:bool"
+  | .version => "err:version"
+
+/-- bincode names `UnexpectedEnd` what the spill reader calls `UnexpectedEof` -/
+def binErrStr : Err → String
+  | .eof => "err:end"
+  | e => errStr e
+
+def resStr {α : Type} (errs : Err → String) (okStr : α → String) : Res α → String
+  | .ok a => okStr a
+  | .err e => errs e
+  | .panic => "panic"
+  | .abort => "abort:alloc"
+  | .fuel => "model-out-of-fuel"
+
+def parseBytesArg (s : String) : Option (List UInt8) :=
+  (parseHex s).map fun ns => ns.map UInt8.ofNat
+
+def tokRow (vs : List SVal) : String := if vs.isEmpty then "-" else joinWith "," (vs.map tok)
+
+/-- which JSON loss hits a value first (traversal order of `value_to_json`). -/
+def jsonSig (v : SVal) : String :=
+  let t := tok v
+  -- the signature names the first cause present in the value, in a fixed priority order
+  if Json.safe v then "json-roundtrip"
+  else if (t.splitOn "Y").length > 1 then "json-bytes-as-list"
+  else if (t.splitOn "V").length > 1 then "json-vector-as-list"
+  else if (t.splitOn "F7ff").length > 1 || (t.splitOn "Ffff").length > 1 then "json-nonfinite-null"
+  else "json-timestamp-key-capture"
 
 def handle (args : List String) : Option Proto.Out :=
   match args with
+  | ["meta"] =>
+    some { model := s!"value={sizeofValue} f32=4 keyval=32 isize_max={isizeMax}", spec := "-" }
+  | ["spill", t] => do
+    let v ← untok t
+    let bytes := Spill.enc v
+    let back := resStr errStr (fun (p : SVal × List UInt8) => s!"{tok p.1} {bytes.length} {p.2.length}") (Spill.decode bytes)
+    let m := s!"{hexU8s bytes} {back}"
+    let s := s!"{hexU8s bytes} {tok v} {bytes.length} 0"
+    pure { model := m, spec := s, sig := if m == s then "-" else "spill-roundtrip" }
+  | "row" :: ts => do
+    let vs ← ts.mapM untok
+    let bytes := Spill.encRow vs
+    let back := resStr errStr (fun (p : List SVal × List UInt8) => tokRow p.1) (Spill.decodeRow vs.length bytes)
+    let m := s!"{hexU8s bytes} {back}"
+    let s := s!"{hexU8s bytes} {tokRow vs}"
+    pure { model := m, spec := s, sig := if m == s then "-" else "spill-row-roundtrip" }
+  | ["bin", t] => do
+    let v ← untok t
+    let bytes := Bin.enc v
+    let back := resStr binErrStr (fun (p : SVal × List UInt8) => tok p.1) (Bin.decode bytes)
+    let m := s!"{hexU8s bytes} {back}"
+    let s := s!"{hexU8s bytes} {tok v}"
+    pure { model := m, spec := s, sig := if m == s then "-" else "bincode-roundtrip" }
+  | ["wal", t] => do
+    let v ← untok t
+    let bytes := Bin.encSetNodeProp 7 [107] v
+    let back := resStr binErrStr (fun (p : SVal × List UInt8) => tok p.1) (Bin.decode (Bin.enc v))
+    let m := s!"{hexU8s bytes} {back} 2"
+    let s := s!"{hexU8s bytes} {tok v} 2"
+    pure { model := m, spec := s, sig := if m == s then "-" else "wal-roundtrip" }
+  | ["snap", t] => do
+    let v ← untok t
+    let bytes := Bin.encSnapshot1 0 [107] v
+    let back := resStr binErrStr (fun (p : SVal × List UInt8) => tok p.1) (Bin.decode (Bin.enc v))
+    let m := s!"{hexU8s bytes} {back} 0"
+    let s := s!"{hexU8s bytes} {tok v} 0"
+    pure { model := m, spec := s, sig := if m == s then "-" else "snapshot-roundtrip" }
+  | ["json", t] => do
+    let v ← untok t
+    let r := tok (Json.roundTrip v)
+    let m := s!"{r} {r}"
+    let s := s!"{tok v} {tok v}"
+    pure { model := m, spec := s, sig := if m == s then "-" else jsonSig v }
+  | ["dec", "spill", h] => do
+    let bs ← parseBytesArg h
+    -- the decoder returns on all inputs (c16ser_spill_decode_never_panics): its answer is the specification
+    let m := resStr errStr (fun (p : SVal × List UInt8) => s!"ok {tok p.1} {bs.length - p.2.length}") (Spill.decode bs)
+    pure { model := m, spec := m }
+  | ["dec", "row", h] => do
+    let bs ← parseBytesArg h
+    let m := resStr errStr (fun (p : List SVal × List UInt8) => s!"ok {tokRow p.1} {bs.length - p.2.length}") (Spill.decodeRow 0 bs)
+    pure { model := m, spec := m }
+  | ["dec", "bin", h] => do
+    let bs ← parseBytesArg h
+    let r := Bin.decode bs
+    let m := resStr binErrStr (fun (p : SVal × List UInt8) => s!"ok {tok p.1} {bs.length - p.2.length}") r
+    pure (if r.returned then { model := m, spec := m } else { model := m, spec := "err:end", sig := "bincode-decode-panic" })
+  | ["dec", "snap", h] => do
+    let bs ← parseBytesArg h
+    let r := Bin.importSnapshot bs
+    let m := resStr (fun e => if e == .version then "err:version" else "err:decode")
+      (fun (p : Nat × Nat) => s!"ok {p.1} {p.2}") r
+    -- bincode's owned `String` decode allocates the announced length first (no limit configured)
+    pure (if r.returned then { model := m, spec := m }
+          else { model := m, spec := "err:decode", sig := if m == "panic" then "snapshot-import-string-capacity-panic" else "snapshot-import-string-alloc-abort" })
   | _ => none
 
 end Grafeo.DriverSer
